@@ -40,10 +40,11 @@ type Res struct {
 }
 
 type RecCfg struct {
-	T         int `json:"T"`
-	MaxArr    int `json:"maxarr"`
-	MaxMapEl  int `json:"maxmapel"`
-	MaxMapKey int `json:"maxmapkey"`
+	Builtin   bool `json:"builtin"` // map driven with the built-in digester: digests are not known to the trace specification
+	T         int  `json:"T"`
+	MaxArr    int  `json:"maxarr"`
+	MaxMapEl  int  `json:"maxmapel"`
+	MaxMapKey int  `json:"maxmapkey"`
 }
 
 type Rec struct {
@@ -101,7 +102,7 @@ type RegObs struct {
 }
 
 func (w *World) cfg() RecCfg {
-	return RecCfg{T: int(w.T), MaxArr: int(w.Th.MaxInlineArrayElt), MaxMapEl: int(w.Th.MaxInlineMapElt), MaxMapKey: int(w.Th.MaxInlineMapKey)}
+	return RecCfg{Builtin: builtinMask != 0, T: int(w.T), MaxArr: int(w.Th.MaxInlineArrayElt), MaxMapEl: int(w.Th.MaxInlineMapElt), MaxMapKey: int(w.Th.MaxInlineMapKey)}
 }
 
 // Stats accumulated over all recorded observations of a run (vacuity indicators for the evidence).
